@@ -140,5 +140,216 @@ theorem scan_skip_blank (rest : Str) (ps : List Str) (st : LexSt) (hp : st.parts
     simp [hm]
 
 
+/-! ### `looks_like_expression` does not depend on letter case -/
+
+theorem lowerAscii_alnum (c : Char) : isAsciiAlnum (lowerAscii c) = isAsciiAlnum c := by
+  by_cases h : 'A' ≤ c ∧ c ≤ 'Z'
+  · have h1 : 65 ≤ c.toNat := h.1
+    have h2 : c.toNat ≤ 90 := h.2
+    have hc : c = Char.ofNat c.toNat := (Char.ofNat_toNat c).symm
+    generalize c.toNat = n at h1 h2 hc
+    subst hc
+    have : n = 65 ∨ n = 66 ∨ n = 67 ∨ n = 68 ∨ n = 69 ∨ n = 70 ∨ n = 71 ∨ n = 72 ∨ n = 73 ∨ n = 74 ∨ n = 75 ∨ n = 76 ∨
+        n = 77 ∨ n = 78 ∨ n = 79 ∨ n = 80 ∨ n = 81 ∨ n = 82 ∨ n = 83 ∨ n = 84 ∨ n = 85 ∨ n = 86 ∨ n = 87 ∨ n = 88 ∨
+        n = 89 ∨ n = 90 := by omega
+    rcases this with h|h|h|h|h|h|h|h|h|h|h|h|h|h|h|h|h|h|h|h|h|h|h|h|h|h <;> subst h <;> decide
+  · unfold lowerAscii
+    simp [h]
+
+theorem splitBy_go_lower (s acc : Str) :
+    splitBy.go (fun c => !isAsciiAlnum c) (lowerStr s) (lowerStr acc) =
+      (splitBy.go (fun c => !isAsciiAlnum c) s acc).map lowerStr := by
+  induction s generalizing acc with
+  | nil => simp [splitBy.go, lowerStr, List.map_reverse]
+  | cons c r ih =>
+    simp only [lowerStr, List.map_cons, splitBy.go, lowerAscii_alnum]
+    split
+    · simp only [List.map_cons]
+      have := ih []
+      simp only [lowerStr, List.map_nil] at this
+      rw [this]
+      simp [lowerStr, List.map_reverse]
+    · have := ih (c :: acc)
+      simp only [lowerStr, List.map_cons] at this
+      exact this
+
+/-- lower-casing leaves a character alone or maps a letter (no digit, no sign) to a letter (no digit, no sign) -/
+theorem lowerAscii_cases (c : Char) :
+    lowerAscii c = c ∨ (isDigit c = false ∧ isDigit (lowerAscii c) = false ∧ lowerAscii c ≠ '-' ∧ lowerAscii c ≠ '+' ∧ c ≠ '-' ∧ c ≠ '+') := by
+  by_cases h : 'A' ≤ c ∧ c ≤ 'Z'
+  · right
+    have h1 : 65 ≤ c.toNat := h.1
+    have h2 : c.toNat ≤ 90 := h.2
+    have hc : c = Char.ofNat c.toNat := (Char.ofNat_toNat c).symm
+    generalize c.toNat = n at h1 h2 hc
+    subst hc
+    have : n = 65 ∨ n = 66 ∨ n = 67 ∨ n = 68 ∨ n = 69 ∨ n = 70 ∨ n = 71 ∨ n = 72 ∨ n = 73 ∨ n = 74 ∨ n = 75 ∨ n = 76 ∨
+        n = 77 ∨ n = 78 ∨ n = 79 ∨ n = 80 ∨ n = 81 ∨ n = 82 ∨ n = 83 ∨ n = 84 ∨ n = 85 ∨ n = 86 ∨ n = 87 ∨ n = 88 ∨
+        n = 89 ∨ n = 90 := by omega
+    rcases this with h|h|h|h|h|h|h|h|h|h|h|h|h|h|h|h|h|h|h|h|h|h|h|h|h|h <;> subst h <;> decide
+  · left; unfold lowerAscii; simp [h]
+
+theorem lower_all_digits (s : Str) : (lowerStr s).all isDigit = s.all isDigit := by
+  induction s with
+  | nil => rfl
+  | cons c r ih =>
+    simp only [lowerStr, List.map_cons, List.all_cons] at ih ⊢
+    rcases lowerAscii_cases c with h | ⟨h1, h2, _⟩
+    · rw [h, ih]
+    · rw [h1, h2]; simp
+
+theorem lower_digits_id (s : Str) (h : s.all isDigit = true) : lowerStr s = s := by
+  induction s with
+  | nil => rfl
+  | cons c r ih =>
+    simp only [List.all_cons, Bool.and_eq_true] at h
+    simp only [lowerStr, List.map_cons]
+    rcases lowerAscii_cases c with hc | ⟨h1, _⟩
+    · rw [hc]; congr 1; exact ih h.2
+    · rw [h.1] at h1; contradiction
+
+theorem lower_isEmpty (s : Str) : (lowerStr s).isEmpty = s.isEmpty := by cases s <;> rfl
+
+theorem parseNat_lower (s : Str) : parseNat? (lowerStr s) = parseNat? s := by
+  cases s with
+  | nil => rfl
+  | cons c r =>
+    rcases lowerAscii_cases c with hc | ⟨h1, h2, _, hp, _, hp'⟩
+    · by_cases hplus : c = '+'
+      · subst hplus
+        have : lowerStr ('+' :: r) = '+' :: lowerStr r := rfl
+        rw [this]
+        simp only [parseNat?, lower_isEmpty, lower_all_digits]
+        by_cases hd : r.all isDigit = true
+        · rw [lower_digits_id r hd]
+        · simp [hd]
+      · have hl : lowerStr (c :: r) = c :: lowerStr r := by simp [lowerStr, hc]
+        rw [hl]
+        unfold parseNat?
+        split
+        · rename_i t heq; simp at heq; exact absurd heq.1 hplus
+        · split
+          · rename_i t heq; simp at heq; exact absurd heq.1 hplus
+          · have e1 : (c :: lowerStr r).isEmpty = (c :: r).isEmpty := rfl
+            have e2 : (c :: lowerStr r).all isDigit = (c :: r).all isDigit := by
+              simp only [List.all_cons, lower_all_digits]
+            simp only [e1, e2]
+            by_cases hd : (c :: r).all isDigit = true
+            · have : c :: lowerStr r = c :: r := by
+                simp only [List.all_cons, Bool.and_eq_true] at hd
+                rw [lower_digits_id r hd.2]
+              rw [this]
+            · simp [hd]
+    · -- a letter in front: no number either way
+      have hl : lowerStr (c :: r) = lowerAscii c :: lowerStr r := rfl
+      rw [hl]
+      have n1 : parseNat? (lowerAscii c :: lowerStr r) = none := by
+        unfold parseNat?
+        split
+        · rename_i t heq; simp at heq; exact absurd heq.1 hp
+        · simp [h2]
+      have n2 : parseNat? (c :: r) = none := by
+        unfold parseNat?
+        split
+        · rename_i t heq; simp at heq; exact absurd heq.1 hp'
+        · simp [h1]
+      rw [n1, n2]
+
+theorem parseI64_lower (s : Str) : parseI64? (lowerStr s) = parseI64? s := by
+  unfold parseI64?
+  have : parseInt? (lowerStr s) = parseInt? s := by
+    cases s with
+    | nil => rfl
+    | cons c r =>
+      by_cases hm : c = '-'
+      · subst hm
+        have : lowerStr ('-' :: r) = '-' :: lowerStr r := rfl
+        rw [this]
+        simp only [parseInt?, lower_isEmpty, lower_all_digits]
+        by_cases hd : r.all isDigit = true
+        · rw [lower_digits_id r hd]
+        · simp [hd]
+      · have hlm : lowerAscii c ≠ '-' := by
+          rcases lowerAscii_cases c with hc | ⟨_, _, h3, _⟩
+          · rw [hc]; exact hm
+          · exact h3
+        have hl : lowerStr (c :: r) = lowerAscii c :: lowerStr r := rfl
+        have e1 : parseInt? (lowerAscii c :: lowerStr r) = (parseNat? (lowerAscii c :: lowerStr r)).map Int.ofNat := by
+          unfold parseInt?
+          split
+          · rename_i t heq; simp at heq; exact absurd heq.1 hlm
+          · rfl
+        have e2 : parseInt? (c :: r) = (parseNat? (c :: r)).map Int.ofNat := by
+          unfold parseInt?
+          split
+          · rename_i t heq; simp at heq; exact absurd heq.1 hm
+          · rfl
+        rw [hl, e1, e2, ← hl, parseNat_lower]
+  rw [this]
+
+/-- **whether a pending token is an arithmetic expression does not depend on letter case**: `SIZE*2`, `Size+1` and
+    `size*2` are judged alike (every maximal alphanumeric run is looked up case-insensitively) -/
+theorem looksLikeExpression_lower (s : Str) : looksLikeExpression (lowerStr s) = looksLikeExpression s := by
+  unfold looksLikeExpression splitBy
+  have h := splitBy_go_lower s []
+  simp only [lowerStr, List.map_nil] at h
+  simp only [lowerStr] at h ⊢
+  rw [h, List.all_map]
+  congr 1
+  funext p
+  have hf : Field.ofStr? (lowerStr p) = Field.ofStr? p := by
+    unfold Field.ofStr?
+    have : lowerStr (lowerStr p) = lowerStr p := by
+      simp only [lowerStr, List.map_map]
+      congr 1
+      funext c
+      rcases lowerAscii_cases c with hc | _
+      · simp [hc]
+      · simp only [Function.comp]
+        -- lower-casing twice is lower-casing once
+        by_cases h : 'A' ≤ lowerAscii c ∧ lowerAscii c ≤ 'Z'
+        · exfalso
+          have := lowerAscii_alnum c
+          revert h
+          unfold lowerAscii
+          by_cases hu : 'A' ≤ c ∧ c ≤ 'Z'
+          · have h1 : 65 ≤ c.toNat := hu.1
+            have h2 : c.toNat ≤ 90 := hu.2
+            have hc : c = Char.ofNat c.toNat := (Char.ofNat_toNat c).symm
+            generalize c.toNat = n at h1 h2 hc
+            subst hc
+            have : n = 65 ∨ n = 66 ∨ n = 67 ∨ n = 68 ∨ n = 69 ∨ n = 70 ∨ n = 71 ∨ n = 72 ∨ n = 73 ∨ n = 74 ∨ n = 75 ∨ n = 76 ∨
+                n = 77 ∨ n = 78 ∨ n = 79 ∨ n = 80 ∨ n = 81 ∨ n = 82 ∨ n = 83 ∨ n = 84 ∨ n = 85 ∨ n = 86 ∨ n = 87 ∨ n = 88 ∨
+                n = 89 ∨ n = 90 := by omega
+            rcases this with h|h|h|h|h|h|h|h|h|h|h|h|h|h|h|h|h|h|h|h|h|h|h|h|h|h <;> subst h <;> decide
+          · simp [hu]
+        · unfold lowerAscii at h ⊢
+          simp only [h, if_false]
+    rw [this]
+  have hfn : Function.ofStr? (lowerStr p) = Function.ofStr? p := by
+    unfold Function.ofStr?
+    have : lowerStr (lowerStr p) = lowerStr p := by
+      have := congrArg (fun t => t) (rfl : lowerStr (lowerStr p) = lowerStr (lowerStr p))
+      -- reuse: Field lookup above proved the same fact; restate
+      simp only [lowerStr, List.map_map]
+      congr 1
+      funext c
+      simp only [Function.comp]
+      by_cases hu : 'A' ≤ c ∧ c ≤ 'Z'
+      · have h1 : 65 ≤ c.toNat := hu.1
+        have h2 : c.toNat ≤ 90 := hu.2
+        have hc : c = Char.ofNat c.toNat := (Char.ofNat_toNat c).symm
+        generalize c.toNat = n at h1 h2 hc
+        subst hc
+        have : n = 65 ∨ n = 66 ∨ n = 67 ∨ n = 68 ∨ n = 69 ∨ n = 70 ∨ n = 71 ∨ n = 72 ∨ n = 73 ∨ n = 74 ∨ n = 75 ∨ n = 76 ∨
+            n = 77 ∨ n = 78 ∨ n = 79 ∨ n = 80 ∨ n = 81 ∨ n = 82 ∨ n = 83 ∨ n = 84 ∨ n = 85 ∨ n = 86 ∨ n = 87 ∨ n = 88 ∨
+            n = 89 ∨ n = 90 := by omega
+        rcases this with h|h|h|h|h|h|h|h|h|h|h|h|h|h|h|h|h|h|h|h|h|h|h|h|h|h <;> subst h <;> decide
+      · have : lowerAscii c = c := by unfold lowerAscii; simp [hu]
+        rw [this, this]
+    rw [this]
+  simp only [Function.comp, hf, hfn]
+  rw [parseI64_lower p]
+
 end LexL
 end Fsel
